@@ -1,6 +1,6 @@
 # common environment for every check
 export GOFLAGS=-mod=mod GOPROXY=off GOSUMDB=off GOTOOLCHAIN=local
 export VERIF=/verif
-export REPO=/repo
+export REPO=${VERIF_REPO:-/repo}
 export BPMOD=$REPO/collector/processor/concurrentbatchprocessor
 export BPIMP=github.com/open-telemetry/otel-arrow/collector/processor/concurrentbatchprocessor
